@@ -66,6 +66,57 @@ Theorem C06_step_invert_chain_tag :
 Proof. exact step_invert_chain_tag. Qed.
 Print Assumptions C06_step_invert_chain_tag.
 
+(* ... `{{~else <e>}}` (leading tilde on a chain tag): the `~` token in front of
+   the `else` item is consumed before parse_name; the tag compiles like
+   `{{else <e>}}` with omit_pre_ws set: the whitespace in front of the tag is
+   always trimmed (remove_previous_whitespace) and the link never indents
+   (indent_before_write = false) ... *)
+Theorem C06_step_invert_chain_tag_tilde :
+  forall src all_tokens opts fuel c pr t0 it c1 nm it0 e0 it1 ts1 trim t ts3 h hs,
+  tk_rule pr = R_invert_chain_tag ->
+  trailing_string src c pr (line_col src (tk_start pr)) = COk c1 ->
+  is_rule R_leading_tilde_to_omit_whitespace t0 = true ->
+  parse_name src fuel it = COk (nm, it0) ->
+  parse_expression src fuel it0 (tk_end pr) = COk (e0, it1) ->
+  remove_previous_whitespace (c_ts c1) = COk ts1 ->
+  process_standalone_statement src ts1 pr true (o_is_partial opts) = COk (trim, t :: ts3) ->
+  c_hs c = h :: hs ->
+  step src all_tokens opts fuel c pr (t0 :: it)
+  = do h' <- link_op h t (es_or_pre e0 true) false;
+    COk ({| c_ts := ts3; c_hs := h' :: hs; c_ds := c_ds c; c_omit := es_pro e0;
+            c_trim := trim; c_end := Some (tk_end pr) |}, it1).
+Proof. exact step_invert_chain_tag_tilde. Qed.
+Print Assumptions C06_step_invert_chain_tag_tilde.
+
+(* ... both forms at once: chain_pre says whether a `~` token precedes the else item ... *)
+Theorem C06_step_invert_chain_tag_gen :
+  forall src all_tokens opts fuel c pr it c1 chain_pre ita nm it0 e0 it1 ts1 trim t ts3 h hs,
+  tk_rule pr = R_invert_chain_tag ->
+  trailing_string src c pr (line_col src (tk_start pr)) = COk c1 ->
+  match it with
+  | t0 :: it' => if is_rule R_leading_tilde_to_omit_whitespace t0 then (true, it') else (false, it)
+  | [] => (false, it)
+  end = (chain_pre, ita) ->
+  parse_name src fuel ita = COk (nm, it0) ->
+  parse_expression src fuel it0 (tk_end pr) = COk (e0, it1) ->
+  (if es_pre (es_or_pre e0 chain_pre) then remove_previous_whitespace (c_ts c1) else COk (c_ts c1))
+    = COk ts1 ->
+  process_standalone_statement src ts1 pr true (o_is_partial opts) = COk (trim, t :: ts3) ->
+  c_hs c = h :: hs ->
+  step src all_tokens opts fuel c pr it
+  = do h' <- link_op h t (es_or_pre e0 chain_pre) (trim && negb (es_pre (es_or_pre e0 chain_pre)));
+    COk ({| c_ts := ts3; c_hs := h' :: hs; c_ds := c_ds c; c_omit := es_pro e0;
+            c_trim := trim; c_end := Some (tk_end pr) |}, it1).
+Proof. exact step_invert_chain_tag_gen. Qed.
+Print Assumptions C06_step_invert_chain_tag_gen.
+
+(* ... and the helper node built for the link does not depend on the tilde: link_op
+   reads only name, params, hash and block params of the tag, so chain_compile
+   (quantified over every espec) covers `{{~else <e>}}` links as it stands ... *)
+Theorem C06_link_op_tilde : forall h t e b w, link_op h t (es_or_pre e b) w = link_op h t e w.
+Proof. exact link_op_es_or_pre. Qed.
+Print Assumptions C06_link_op_tilde.
+
 (* ... a plain `{{else}}` pops the finished body and applies set_chain_template only ... *)
 Theorem C06_step_invert_tag :
   forall src all_tokens opts fuel c pr it c1 e ts1 it1 trim t ts3 h hs,
